@@ -6,12 +6,12 @@ from ..rules import transfers, tiling, peq, in_bounds, vstr, fstr, lifetime_link
 from ..tys import tstr, adt_args, is_ga, strip_wrappers, pointee
 
 EXPLANATION = (
-    "Static piece-map analysis of the polymorphic MIR (N, K, M and the index symbolic; configs F0+F1). For each of the 11 bodies the abstract interpreter "
-    "extracts every raw read / write / copy as (base object, byte offset, byte extent, value) and the rule compares that piece map with the Vec-operation "
-    "spec: which source range lands at which destination offset or result position, that the pieces tile the source/destination exactly (nothing lost, "
-    "duplicated or out of bounds), that remove/swap_remove reach the unchecked body only under idx < N with self still an ordinary owned value, that the "
-    "unreachable_unchecked hints are infeasible under that precondition, and that the by-reference split halves are disjoint, adjacent and covering views of "
-    "the same storage with no copy. Result lengths are fixed by the types (Add1/Sub1/Diff/Sum) and checked by rustc.")
+    "Symbolic byte-provenance analysis of the polymorphic MIR (N, K, M and the index symbolic; configs F0+F1). For each of the eight owned operations the body is fully expanded "
+    "(crate-local callees inlined, loop-free code tree-shaped) and the raw operations of every return path - ptr::read / write / copy, transmute_copy, const_transmute, slice::swap, assume_init, "
+    "repr(C) pairs - are replayed on segment lists with symbolic, provably ordered boundaries; the provenance of every result component is compared with the Vec-operation specification "
+    "(which input bytes land where: nothing lost, duplicated or out of bounds), the by-value inputs must be moved (never dropped afterwards) and no foreign call may run - whatever unsafe idiom the body uses. "
+    "remove/swap_remove reach the unchecked body only under idx < N with self still an ordinary owned value (C09.A), the unreachable_unchecked hints are infeasible under that precondition (C09.U), "
+    "and the by-reference split halves are disjoint, adjacent and covering views of the same storage with no copy (C09.S). Result lengths are fixed by the types (Add1/Sub1/Diff/Sum) and checked by rustc.")
 
 SEQ = "<GenericArray<$0,$1> as %s>::%s"
 ARG1 = ("V", "arg", 1)
